@@ -19,6 +19,9 @@ OBLIGATIONS = [
     (P + "filter_validates_xhtml", "XHTML instance: only RulesOk needed"),
     (P + "mkRules_hypotheses", "every rule set built by the add_* calls (mkRules) satisfies RulesOk and, in HTML mode, HtmlCaseOk"),
     (P + "filter_validates_mkRules", "hence validate (filter x) = true for every rule set the add_* calls can build, any verdicts of the external validators"),
+    (P + "validate_implies_encoding_ok", "clause 4: validateE (declared encoding e) r x = true -> e.valid x = true"),
+    (P + "filter_validates_encoded", "clause 1 with a declared ASCII-compatible encoding, for every validator e with EncOk e r"),
+    (P + "single_byte_encOk", "EncOk holds for every single-byte charset validator (per-byte test accepting the escape bytes; replacement NUL or accepted byte)"),
     (P + "htmlCaseOk_needed_counterexample", "the HtmlCaseOk hypothesis cannot be dropped for the abstract Rules type (concrete witness, by decide)"),
     (P + "exRules_ok", "non-vacuity: a concrete rule set satisfying RulesOk (examples in Props.lean evaluate validate/filter on it)"),
 ]
@@ -34,6 +37,9 @@ PROP_POOL = [b"href", b"src", b"title", b"size", b"checked", b"disabled", b"widt
 ENT_POOL = [b"nbsp", b"copy", b"or", b"Amp", b"x1", b"apos", b"", b"a;b", b"LT"]
 REGEXES = [b".*", b"[a-z]+", b"(http|https|ftp)://.*", b"[0-9]+(px|em|%)?", b"[a-zA-Z0-9 _.-]*", b"[^<>\"']*", b"(left|right|center)"]
 SCHEMES = [b"(http|https|ftp|mailto|news|nntp)", b"(http|https)", b"[a-z]+"]
+ENCODINGS = [b"UTF-8", b"utf8", b"ISO-8859-1", b"iso-8859-8", b"ISO-8859-6", b"windows-1255", b"cp1251", b"US-ASCII", b"koi8-r", b"latin1", b"windows-1252"]
+ENC_BYTES = [b"\xc3\xa9", b"\xd7\xa9\xd7\x9c", b"\xe2\x82\xac", b"\xf0\x9f\x98\x80", b"\xff", b"\xc3", b"\xa9", b"\xe2\x82", b"\xc0\xaf", b"\xed\xa0\x80", b"\xf4\x90\x80\x80",
+             b"\x04", b"\x7f", b"\x80", b"\x9f", b"\xa0", b"\xa1", b"\xbf", b"\xd2", b"\xe9", b"\x00", b"\x0b", b"\x1f", b"\xef\xbf\xbe", b"\xfe"]
 
 
 class RuleSet:
@@ -42,6 +48,8 @@ class RuleSet:
         self.comments = rng.random() < 0.5
         self.numeric = rng.random() < 0.5
         self.entities = [e for e in ENT_POOL if rng.random() < 0.25]
+        self.enc = rng.choice(ENCODINGS) if rng.random() < 0.3 else b""
+        self.repl = rng.choice((0, 0, 63, 32, 60, 38)) if self.enc else 0   # NUL = remove; otherwise a character that is valid in the encoding (precondition of the API)
         self.tags = []
         ntags = rng.randrange(1, 4) if simple else rng.randrange(0, 9)
         pool = TAG_POOL[:6] if simple else TAG_POOL
@@ -76,6 +84,8 @@ class RuleSet:
 
     def fields(self):
         fl = "%d%d%d" % (self.xhtml, self.comments, self.numeric)
+        if self.enc:
+            fl += ":%s:%d" % (hx(self.enc), self.repl)
         es = ",".join(hx(e) for e in self.entities) or "-"
         ts = ",".join("%s:%d" % (hx(t), k) for t, k in self.tags) or "-"
         ps = ",".join("%s:%s:%s" % (hx(t), hx(p), s) for t, p, s in self.props) or "-"
@@ -338,6 +348,12 @@ def gen_input(rs, rng):
     s = b"".join(out)
     if rng.random() < 0.5 * noise + 0.05:
         s = mutate(rng, s)
+    if rs.enc and rng.random() < 0.7:
+        b = bytearray(s)
+        for _ in range(rng.choice((1, 1, 2, 4))):
+            i = rng.randrange(len(b) + 1)
+            b[i:i] = rng.choice(ENC_BYTES)
+        s = bytes(b)
     return s
 
 
@@ -386,16 +402,22 @@ def run_all(c, hbin, model, cases, label):
     if rc != 0:
         crashed = {"rc": rc, "stderr": err_i, "case": cases[len(out_i)] if len(out_i) < len(cases) else None}
     n = min(len(out_i), len(cases))
-    impl, tables = [], []
+    impl, tables, encs = [], [], []
     for k in range(n):
         o = out_i[k]
+        e = "-"
+        if " E=" in o:
+            o, e = o.rsplit(" E=", 1)
         if " T=" in o:
             a, t = o.rsplit(" T=", 1)
         else:
             a, t = o, "-"
+        if ",X:" in e:
+            a = "harness: encoding::valid and encoding::validate_or_filter disagree " + a
         impl.append(a)
         tables.append(t)
-    mlines = [cases[k] + " " + tables[k] for k in range(n)]
+        encs.append(e)
+    mlines = [cases[k] + " " + tables[k] + " " + encs[k] for k in range(n)]
     rc_m, out_m, err_m = c.run_lines(model, mlines)
     if rc_m != 0:
         c.broke(f"model driver crashed on stream {label}", err_m)
@@ -465,6 +487,35 @@ def run_all(c, hbin, model, cases, label):
     return {"impl": impl, "model": out_m, "diffs": diffs, "crashed": crashed, "bad": bad, "stats": stats, "tables": tables}
 
 
+def shrink_case(c, hbin, model, case, rounds=40):
+    """delta debugging on the input bytes: smallest input (same rule set) on which the judge still fails"""
+    w = case.split()
+    x = unhex(w[6])
+    saved = (c.evaluations, c.traces_validated, list(c.log_lines))
+    n = 2
+    for _ in range(rounds):
+        if len(x) <= 1:
+            break
+        size = max(1, len(x) // n)
+        cands = []
+        for i in range(0, len(x), size):
+            y = x[:i] + x[i + size:]
+            if y != x:
+                cands.append(y)
+        lines = [" ".join(w[:6] + [hexs(y)]) for y in cands]
+        res = run_all(c, hbin, model, lines, "shrink")
+        badk = sorted(set(k for k, _ in res["bad"]))
+        if res["crashed"] or not badk:
+            if size == 1:
+                break
+            n = min(len(x), n * 2)
+            continue
+        x = cands[badk[0]]
+        n = max(2, n - 1)
+    c.evaluations, c.traces_validated = saved[0], saved[1]
+    return " ".join(w[:6] + [hexs(x)])
+
+
 def main():
     c = Check("C04")
     c.rule = ("case = (rule set, input bytes): rule sets drawn over {xhtml,html} x comments x numeric entities x extra entities x tags of every kind "
@@ -482,7 +533,9 @@ def main():
         "correspondence harness harness/c04.cpp (ASan+UBSan build of the working tree)",
         "lenient tokenizer of Spec.lean = this project's reading of 'what a browser may treat as markup' (specification, trusted as such)",
     ]
-    c.assumptions += ["rules.encoding() is empty (no encoding pre-filter); the encoding clause of the property is covered by C14's validators, the composition is not modelled here",
+    c.assumptions += ["encoding::valid / encoding::validate_or_filter (property C14) are parameters of the model: single-byte charsets as a per-byte test "
+                      "(mask recorded from the real validator, cross-checked against its verdicts on every case), UTF-8 by recorded verdicts; EncOk is proved for "
+                      "single-byte charsets and assumed (judge-only) for UTF-8; non-ASCII-compatible encodings (iconv/ICU path) are not exercised",
                       "attribute validators are pure functions of the value bytes"]
     thorough = c.tier == "thorough"
 
@@ -522,6 +575,8 @@ def main():
                 continue
             dist["valid_inputs" if mm.group(1) == "1" else "filtered_inputs"] += 1
             dist["xhtml_cases" if cases[k].split()[1][0] == "1" else "html_cases"] += 1
+        if ":" in cases[k].split()[1]:
+            dist["with_declared_encoding"] = dist.get("with_declared_encoding", 0) + 1
             if mm.group(4) != mm.group(5):
                 dist["escape_differs_from_remove"] += 1
             if res["tables"][k] != "-":
@@ -538,6 +593,17 @@ def main():
             cr = res["crashed"]
             c.violation("sanitizer abort / crash of the real code", {"case": cr["case"], "stderr": cr["stderr"]})
         seen = set()
+        if res["bad"] and not c.replay_path:
+            # minimise the first failing case; report it first
+            k0, what0 = res["bad"][0]
+            small = shrink_case(c, hbin, model, cases[k0])
+            r2 = run_all(c, hbin, model, [small], "minimised")
+            if r2["bad"]:
+                c.violation("property predicate false on implementation output: " + r2["bad"][0][1],
+                            {"case": small, "impl_output": r2["impl"][0] if r2["impl"] else None,
+                             "model_output": r2["model"][0] if r2["model"] else None,
+                             "input_bytes": repr(unhex(small.split()[6])), "minimised_from": cases[k0],
+                             "replay_cmd": "bin/check C04 --replay <this file>"})
         for k, what in res["bad"]:
             if k in seen:
                 continue
